@@ -613,3 +613,32 @@ def translate(ctx, what, outfile):
     if changed:
         ctx.log("regenerated Gen/%s (changed)" % outfile)
     return True
+
+
+def standard(ctx, harness, extracted, driver_dir, rule, key_fn=None, what_fn=None, translators=(),
+             bridge_files=(), trusted=(), assumptions=(), escalate=True, extra_cov=None, run_timeout=1800):
+    """The whole check for a property that follows the standard layout:
+       translators -> Gen/*.v ; Extract/Extract<prop>.v (model only) ; Properties/<prop>.v (+bridges) ;
+       harness/cmd/<harness> ; ocaml/<driver_dir>/main.ml ; correspondence + executable spec."""
+    cov = {"rule": rule, "evaluations": 0, "distinct_nontrivial": 0}
+    ok_t = True
+    for what, outfile in translators:
+        ok_t = translate(ctx, what, outfile) and ok_t
+    model_ok = ok_t and ctx.coq(["Extract/Extract%s.vo" % ctx.prop], what="model+extraction")
+    if model_ok:
+        ctx.properties(extra_files=bridge_files)
+    h = ctx.build_harness(harness)
+    m = ctx.ocaml_model("m" + ctx.prop, extracted, driver_dir) if model_ok else None
+    if h and m:
+        st = correspondence(ctx, h, m, key_fn=key_fn, what_fn=what_fn, run_timeout=run_timeout)
+        if st:
+            cov.update(st)
+        if escalate and ctx.brokens and not ctx.violations and ctx.quick() and not ctx.replay:
+            # a proof, bridge or the correspondence no longer checks: widen the search for a concrete failing input
+            st2 = correspondence(ctx, h, m, key_fn=key_fn, what_fn=what_fn, tier="thorough", label="escalated", run_timeout=run_timeout)
+            if st2:
+                cov["escalated_evaluations"] = st2["evaluations"]
+    if extra_cov:
+        cov.update(extra_cov)
+    cov["trusted_base_extra"] = list(trusted)
+    ctx.finish(cov, assumptions=list(assumptions))
